@@ -8,6 +8,7 @@ import (
 	"os"
 	"path"
 	"slices"
+	"strconv"
 	"strings"
 )
 
@@ -93,8 +94,8 @@ func Changes(cmd CommandRunner, baseBranch string, filter PathFilter) ([]*FileCh
 		}
 
 		status := FileStatus(parts[0][0])
-		srcPath := parts[1]
-		dstPath := parts[len(parts)-1]
+		srcPath := unquotePath(parts[1])
+		dstPath := unquotePath(parts[len(parts)-1])
 		slog.Debug("Git file change", slog.String("change", parts[0]), slog.String("path", dstPath), slog.String("commit", commit))
 
 		if !filter.IsPathAllowed(dstPath) {
@@ -244,6 +245,16 @@ func Changes(cmd CommandRunner, baseBranch string, filter PathFilter) ([]*FileCh
 	}
 
 	return changes, nil
+}
+
+// git quotes paths with special or non-ASCII characters, see core.quotePath.
+func unquotePath(s string) string {
+	if strings.HasPrefix(s, `"`) {
+		if u, err := strconv.Unquote(s); err == nil {
+			return u
+		}
+	}
+	return s
 }
 
 func changesWithout(changes []*FileChange, fpath string) []*FileChange {
